@@ -22,8 +22,12 @@ package formatutil
 //@ func seekAfter
 //@   assigns nothing
 //@   ensures len(result) <= len(words)
+//@ # isFDW names what the free function isFuncDecl computes from the words after the `func` keyword (a declaration
+//@ # `func name(`, `func (recv) name(` as opposed to a function literal); its own definition is not specified
+//@ ufunc isFDW(words []aWord) bool
 //@ func isFuncDecl
 //@   assigns nothing
+//@   ensures [call.fdw] result == isFDW(words)
 //@
 //@ # isFD names the classification computed by isFuncDecl (a function of the statement's words)
 //@ ufunc isFD(st aStmt) bool
@@ -31,11 +35,14 @@ package formatutil
 //@   requires len(s.words) > 0 && 0 <= s.at && s.at < len(s.words)
 //@   assigns nothing
 //@   ensures [call.class] result == isFD(s)
+//@   ensures [func-decl-is-func-keyword-plus-declaration-shape] result == (s.tok == token.FUNC && isFDW(s.words[s.at+1:]))
 //@ ufunc isD(st aStmt) bool
 //@ func (aStmt).isDecl
 //@   requires len(s.words) > 0 && 0 <= s.at && s.at < len(s.words)
 //@   assigns nothing
 //@   ensures [call.class] result == isD(s)
+//@   ensures [declarations-are-const-type-var-and-function-declarations] result == (s.tok == token.CONST || s.tok == token.TYPE || s.tok == token.VAR ||
+//@           (s.tok == token.FUNC && isFDW(s.words[s.at+1:])))
 //@
 //@ func firstNonDecl
 //@   requires forall k in 0..len(stmts) :: len(stmts[k].words) > 0 && 0 <= stmts[k].at && stmts[k].at < len(stmts[k].words)
